@@ -157,6 +157,13 @@ def run_property(report, modname, timeout_ms=None, bounded=True, procs=None,
   n = len(mod.CONTRACTS)
   idxs = [i for i in range(n) if only is None or
           any(mod.CONTRACTS[i].prefix.startswith(p) for p in only)]
+  # contracts whose obligations need tens of seconds of solver time are discharged in the thorough
+  # tier only (a verdict must not flip with the load of the machine)
+  skipped = [mod.CONTRACTS[i].prefix for i in idxs
+             if getattr(mod.CONTRACTS[i], "only_tier", None) not in (None, tier)]
+  idxs = [i for i in idxs if mod.CONTRACTS[i].prefix not in skipped]
+  if skipped:
+    report.coverage.setdefault("contracts_left_to_the_thorough_tier", []).extend(skipped)
   ctxm = mp.get_context("fork")
   with ctxm.Pool(min(procs, max(1, len(idxs)))) as pool:
     proofs = pool.map(_prove_worker, [(modname, i, timeout_ms) for i in idxs])
